@@ -250,4 +250,171 @@ macro "side" : tactic =>
     | (simp [registry, subGate, encodeResp, encRecs_length] <;> omega))
 
 
+/-! ### what the gates guarantee -/
+
+theorem lenGate_ok {e : Entry} {b : Bytes} (h : lenGate e b = .ok ()) :
+    e.minLen ≤ b.length ∧ ∀ m, e.maxLen = some m → b.length ≤ m := by
+  unfold lenGate at h
+  split at h
+  · cases h
+  · split at h
+    · rename_i m hm
+      split at h
+      · cases h
+      · refine ⟨by omega, fun m' hm' => ?_⟩
+        rw [hm] at hm'; cases hm'; omega
+    · rename_i hm
+      exact ⟨by omega, fun m' hm' => by rw [hm] at hm'; cases hm'⟩
+
+theorem subGate_ok {e : Entry} {s f : UInt8} {t : Bytes} (h : subGate e (s :: f :: t) = .ok ()) :
+    (e.subFn = true → f.toNat < 0x80) ∧ ∀ k, e.sub = some k → f.toNat = k := by
+  unfold subGate at h
+  simp only at h
+  split at h
+  · cases h
+  · rename_i hc
+    refine ⟨fun hs => by simp [hs] at hc; omega, fun k hk => ?_⟩
+    rw [hk] at h
+    simp only at h
+    split at h
+    · assumption
+    · cases h
+
+theorem reg_facts : ∀ e ∈ registry,
+    ((e.kind = .dsc ∨ e.kind = .ecuReset ∨ e.kind = .secAccess ∨ e.kind = .commCtrl ∨ e.kind = .ctrlDTC) → e.subFn = true) ∧
+    (e.kind = .dddi → ((e.sub = some 1 ∧ e.minLen = 4) ∨ (e.sub = some 2 ∧ e.minLen = 4) ∨ e.sub = some 3)) ∧
+    (e.kind = .dtcCount → ∃ k ∈ countSubs, e.sub = some k) ∧
+    (e.kind = .dtcList → (∃ k ∈ listSubsOpen, e.sub = some k) ∨ ((∃ k ∈ listSubsSingle, e.sub = some k) ∧ e.maxLen = some 7)) ∧
+    (e.kind = .routine → (e.sub = some 1 ∨ e.sub = some 2 ∨ e.sub = some 3)) := by
+  decide
+
+theorem parseRecs_lt {b : Bytes} {l} (h : parseRecs b = some l) : ∀ p ∈ l, p.1 < 0x1000000 := by
+  fun_induction parseRecs b generalizing l with
+  | case1 => cases h; simp
+  | case2 a b c s rest l' hl ih =>
+    simp only [Option.some.injEq] at h
+    subst h
+    intro p hp
+    simp only [List.mem_cons] at hp
+    rcases hp with rfl | hp
+    · exact fromBE3_lt a b c
+    · exact ih hl p hp
+  | case3 a b c s rest hl => simp at h
+  | case4 => cases h
+
+/-! ### field positions -/
+
+theorem decodeResp_parse {b r k} (h : decodeResp b = .ok r) (hk : r.kind? = some k) : parseKind k b = .ok r := by
+  obtain ⟨e, _, _, _, hp⟩ := decodeResp_typed h (by simp [hk])
+  have := parseKind_kind hp
+  rw [hk] at this
+  cases this; exact hp
+
+theorem parseRecs_getElem {b : Bytes} {l} (h : parseRecs b = some l) (i : Nat) (hi : i < l.length) :
+    l[i].1 = fromBE ((b.drop (4 * i)).take 3) ∧ b[4 * i + 3]? = some l[i].2 := by
+  fun_induction parseRecs b generalizing l i with
+  | case1 => cases h; simp at hi
+  | case2 a b c s rest l' hl ih =>
+    simp only [Option.some.injEq] at h
+    subst h
+    cases i with
+    | zero => simp
+    | succ j =>
+      have hj : j < l'.length := by simpa using hi
+      have := ih hl j hj
+      have e1 : 4 * (j + 1) = 4 * j + 1 + 1 + 1 + 1 := by omega
+      simp only [List.getElem_cons_succ, e1, List.drop_succ_cons, List.getElem?_cons_succ]
+      exact this
+  | case3 a b c s rest hl => simp at h
+  | case4 => cases h
+
+macro "pos_tac" h:ident : tactic =>
+  `(tactic| ((repeat' split at $h:ident) <;> first | (cases $h:ident; done) | (cases $h:ident; simp_all)))
+
+
+/-! ### the decoder only produces well-formed objects: per-family facts -/
+
+macro "wf_tac" h:ident : tactic =>
+  `(tactic| ((repeat' split at $h:ident) <;>
+      first
+        | (cases $h:ident; done)
+        | (cases $h:ident; simp_all [Resp.WF, fromBE2_lt, fromBE3_lt])))
+
+theorem pNeg_wf {b r} (h : pNeg b = .ok r) : r.WF := by unfold pNeg at h; wf_tac h
+theorem pTesterPresent_wf {b r} (h : pTesterPresent b = .ok r) : r.WF := by unfold pTesterPresent at h; wf_tac h
+theorem pRdbi_wf {b r} (h : pRdbi b = .ok r) : r.WF := by unfold pRdbi at h; wf_tac h
+theorem pRmba_wf {b r} (h : pRmba b = .ok r) : r.WF := by unfold pRmba at h; wf_tac h
+theorem pWdbi_wf {b r} (h : pWdbi b = .ok r) : r.WF := by unfold pWdbi at h; wf_tac h
+theorem pClearDTC_wf {b r} (h : pClearDTC b = .ok r) : r.WF := by unfold pClearDTC at h; wf_tac h
+theorem pDtcExt_wf {b r} (h : pDtcExt b = .ok r) : r.WF := by unfold pDtcExt at h; wf_tac h
+theorem pIocbi_wf {b r} (h : pIocbi b = .ok r) : r.WF := by unfold pIocbi at h; wf_tac h
+theorem pTransferData_wf {b r} (h : pTransferData b = .ok r) : r.WF := by unfold pTransferData at h; wf_tac h
+theorem pTransferExit_wf {b r} (h : pTransferExit b = .ok r) : r.WF := by unfold pTransferExit at h; wf_tac h
+
+theorem pWmba_wf {b r} (h : pWmba b = .ok r) : r.WF := by
+  unfold pWmba at h
+  split at h
+  · rename_i s alfid rest
+    split at h
+    · rename_i hc
+      obtain ⟨_, ha, hs, hlen⟩ := hc
+      cases h
+      refine ⟨ha, hs, ?_, ?_⟩
+      · have := fromBE_lt (rest.take (alfid.toNat % 16))
+        rwa [List.length_take, Nat.min_eq_left (by omega)] at this
+      · have := fromBE_lt (rest.drop (alfid.toNat % 16))
+        rwa [List.length_drop, show rest.length - alfid.toNat % 16 = alfid.toNat / 16 by omega] at this
+    · cases h
+  · cases h
+
+theorem pUpDownload_wf {b r} (h : pUpDownload b = .ok r) : r.WF := by
+  unfold pUpDownload at h
+  split at h
+  · rename_i s lfid rest
+    split at h
+    · rename_i hc
+      obtain ⟨hs, hlo, hhi, hlen⟩ := hc
+      cases h
+      refine ⟨hs, hlo, hhi, ?_⟩
+      have := fromBE_lt rest
+      rwa [hlen] at this
+    · cases h
+  · cases h
+
+theorem pDtcCount_facts {b sub mask fmt count} (h : pDtcCount b = .ok (.dtcCount sub mask fmt count)) :
+    fmt.toNat ∈ dtcFormatTable ∧ count < 0x10000 := by
+  unfold pDtcCount at h
+  (repeat' split at h) <;> first | (cases h; done) | (cases h; simp_all [fromBE2_lt])
+
+theorem pDtcList_facts {b sub mask recs} (h : pDtcList b = .ok (.dtcList sub mask recs)) :
+    (∀ p ∈ recs, p.1 < 0x1000000) ∧ distinctKeys recs = true := by
+  unfold pDtcList at h
+  split at h
+  · split at h
+    · split at h
+      · rename_i l hl
+        split at h
+        · rename_i hd
+          cases h
+          exact ⟨parseRecs_lt hl, hd⟩
+        · cases h
+      · cases h
+    · cases h
+  · cases h
+
+theorem pDddi_facts {b sub d} (h : pDddi b = .ok (.dddi sub (some d))) : d < 0x10000 := by
+  unfold pDddi at h
+  (repeat' split at h) <;> first | (cases h; done) | (cases h; simp_all [fromBE2_lt])
+
+theorem pRoutine_facts {b sub rid rec} (h : pRoutine b = .ok (.routine sub rid rec)) : rid < 0x10000 := by
+  unfold pRoutine at h
+  (repeat' split at h) <;> first | (cases h; done) | (cases h; simp_all [fromBE2_lt])
+
+theorem nrcTable_lt : ∀ n ∈ nrcTable, n < 256 := by decide
+
+/-- evaluate the decoder on a concrete byte string -/
+macro "eval_dec" : tactic =>
+  `(tactic| simp [decodeResp, gate, dispatch, entriesFor, registry, checkEntry, lenGate, subGate, parseKind, pUpDownload,
+      pWmba, pDddi, pDtcList, pRdbi, parseRecs, distinctKeys, fromBE])
+
 end Gallia.UdsResp
